@@ -14,8 +14,9 @@ EXPLANATION = ("Bounded stand-in only: the real spherematch (pair loop, sort, ma
                "symbolic separations for every candidate-cell layout of <=3 x <=3 points: no pair at or beyond the match length, each pair with "
                "its own separation, once, in non-decreasing order; maxmatch=k is the distance-ordered greedy selection. The spatial hash "
                "(chunks.assign/get: which candidates a cell holds) is replaced by an arbitrary candidate relation.")
-UNDECIDED = ["completeness of the spatial hash: every pair closer than the match length is among the candidates of its cell (spherical geometry in "
-             "floats: RA margins scaled by cos(dec), seam rotation, polar caps) -- chunks.assign / getbounds / get are not under contract",
+UNDECIDED = ["completeness of the spatial hash (every pair closer than the match length is among the candidates of its cell: RA margins scaled by "
+             "cos(dec), seam rotation, polar caps) is only compared with brute force on generated point sets (spherematch_vs_brute_force, bounded); "
+             "chunks.assign / getbounds / get have no symbolic contract",
              "all sizes: the bookkeeping loops are decided only up to the stated bounds"]
 
 
@@ -161,3 +162,156 @@ import contracts.c18 as _c18
 @register("C04")
 class CalleeGcirc(_c18.GcircFormula):
     name = "callee_gcirc_vector_formula"
+
+
+# ---------------------------------------------------------------------------
+# whole-function contract against brute force (spatial hash included): bounded numerical stand-in
+# ---------------------------------------------------------------------------
+from pyvc.numeric import NumericJob as _NumericJob
+
+
+def sky_points(rng, n, kind):
+    """generated sky positions (degrees): clustered / on the RA seam / near a pole / all sky / lattice aligned with chunk edges"""
+    ra, dec = [], []
+    if kind == "seam":
+        d0 = rng.uniform(-70, 70)
+        for _ in range(n):
+            ra.append(rng.choice([rng.uniform(0, 0.4), 360.0 - rng.uniform(1e-6, 0.4)]))
+            dec.append(d0 + rng.uniform(-0.4, 0.4))
+    elif kind == "pole":
+        sgn = rng.choice([-1, 1])
+        for _ in range(n):
+            ra.append(rng.uniform(0, 360))
+            dec.append(sgn * (89.9999 - abs(rng.gauss(0, 0.5))))
+    elif kind == "allsky":
+        for _ in range(n):
+            ra.append(rng.uniform(0, 360))
+            dec.append(np.degrees(np.arcsin(rng.uniform(-0.999, 0.999))))
+    elif kind == "lattice":
+        step = rng.choice([0.1, 0.25, 0.5, 1.0])
+        r0, d0 = rng.choice([0.0, 359.0, 10.0, 180.0]), rng.choice([-1.0, 0.0, 45.0, 88.0])
+        for _ in range(n):
+            ra.append((r0 + step * rng.randint(0, 8)) % 360.0)
+            dec.append(min(89.5, d0 + step * rng.randint(0, 8)))
+    else:
+        r0, d0 = rng.uniform(0, 360), rng.uniform(-80, 80)
+        for _ in range(n):
+            ra.append((r0 + rng.gauss(0, 0.3) / max(0.2, np.cos(np.radians(d0)))) % 360.0)
+            dec.append(max(-89.9, min(89.9, d0 + rng.gauss(0, 0.3))))
+    return np.array(ra), np.array(dec)
+
+
+def true_sep(ra1, dec1, ra2, dec2):
+    """great-circle separation in degrees from unit vectors (atan2 of |a x b| and a.b)"""
+    def unit(r, d):
+        r, d = np.radians(r), np.radians(d)
+        return np.array([np.cos(d) * np.cos(r), np.cos(d) * np.sin(r), np.sin(d)])
+    a, b = unit(ra1, dec1), unit(ra2, dec2)
+    return float(np.degrees(np.arctan2(np.linalg.norm(np.cross(a, b)), np.dot(a, b))))
+
+
+@register("C04")
+class SpherematchBruteForce(_NumericJob):
+    name = "spherematch_vs_brute_force"
+    target = "pydl.pydlutils.spheregroup:spherematch, chunks.__init__, chunks.assign, chunks.getbounds, chunks.get"
+    bound = ("4..40 x 4..40 points: clustered, straddling the RA 0/360 seam, near a pole, all sky, lattice aligned with chunk edges (list 1 optionally padded "
+             "with an all-sky lattice so that the chunk rows span the full circle); match lengths 1 arcsec .. 20 deg; chunk sizes from the default to 40 x "
+             "the match length; maxmatch 0, 1, 2, 3; pairs within 1e-7 deg of the match length are not generated")
+    KINDS = ("unlimited_match_returns_exactly_the_pairs_below_the_match_length_once", "separations_true_and_non_decreasing", "maxmatch_k_is_a_distance_ordered_greedy_selection",
+             "independent_of_chunk_size_and_point_order")
+    NQ, NT = 150, 1500
+
+    def _cases(self, rng, n):
+        rep = 0
+        while rep < n:
+            kind = rng.choice(["cluster", "seam", "seam", "pole", "allsky", "lattice"])
+            n1, n2 = rng.randint(4, 40), rng.randint(4, 40)
+            ra1, dec1 = sky_points(rng, n1, kind)
+            if kind == "allsky":
+                ra2, dec2 = sky_points(rng, n2, kind)
+                length = rng.choice([5.0, 10.0, 20.0, 2.0])
+            else:
+                # second list: perturbed copies of first-list points plus unrelated ones
+                length = rng.choice([1 / 3600.0, 10 / 3600.0, 0.01, 0.05, 0.2, 0.5])
+                ra2, dec2 = [], []
+                for _ in range(n2):
+                    if rng.random() < 0.7:
+                        k = rng.randrange(n1)
+                        dd = rng.uniform(0, 2.0) * length
+                        th = rng.uniform(0, 2 * np.pi)
+                        dec2.append(max(-89.99, min(89.99, dec1[k] + dd * np.sin(th))))
+                        ra2.append((ra1[k] + dd * np.cos(th) / max(1e-3, np.cos(np.radians(dec1[k])))) % 360.0)
+                    else:
+                        r, d = sky_points(rng, 1, kind)
+                        ra2.append(r[0])
+                        dec2.append(d[0])
+                ra2, dec2 = np.array(ra2), np.array(dec2)
+            if rng.random() < 0.4:
+                gra, gdec = np.meshgrid(np.arange(0.0, 360.0, 30.0), np.arange(-60.0, 61.0, 30.0))
+                ra1, dec1 = np.concatenate([ra1, gra.ravel()]), np.concatenate([dec1, gdec.ravel()])
+            sep = np.array([[true_sep(ra1[i], dec1[i], ra2[k], dec2[k]) for k in range(ra2.size)] for i in range(ra1.size)])
+            if (np.abs(sep - length) < 1e-7).any():
+                continue
+            srt = np.sort(sep[sep < length])
+            if srt.size > 1 and (np.diff(srt) < 1e-9).any():       # ties would make the greedy selection ambiguous
+                continue
+            chunksize = rng.choice([None, None, length * rng.uniform(1.0, 40.0), max(4 * length, 0.1) * rng.uniform(1, 5)])
+            # keep the chunk table small (the real class allocates one Python list per chunk): at most ~2e5 chunks
+            eff = max(4 * length, 0.1) if chunksize is None else max(chunksize, 4 * length)
+            span_d = dec1.max() - dec1.min()
+            span_r = 360.0 if (kind in ("allsky", "pole", "seam") or ra1.size > n1) else (ra1.max() - ra1.min())
+            if kind == "seam" and ra1.size == n1:
+                span_r = 1.0
+            while (span_d / eff + 3) * (span_r / eff + 3) > 2e5:
+                eff *= 1.5
+                chunksize = eff
+            yield dict(ra1=ra1, dec1=dec1, ra2=ra2, dec2=dec2, length=length, chunksize=chunksize, sep=sep, k=rng.choice([1, 1, 2, 3]),
+                       perm=[rng.sample(range(ra1.size), ra1.size), rng.sample(range(ra2.size), ra2.size)],
+                       inp=dict(rep=rep, sky=kind, n1=int(ra1.size), n2=int(ra2.size), matchlength=length, chunksize=chunksize))
+            rep += 1
+
+    def _check(self, c):
+        from pydl.pydlutils.spheregroup import spherematch
+        ra1, dec1, ra2, dec2, length, sep = c["ra1"], c["dec1"], c["ra2"], c["dec2"], c["length"], c["sep"]
+        kw = {} if c["chunksize"] is None else dict(chunksize=c["chunksize"])
+        bad = []
+        expected = {(i, k): sep[i, k] for i in range(ra1.size) for k in range(ra2.size) if sep[i, k] < length}
+
+        def run(r1, d1, r2, d2, maxmatch, **kw2):
+            try:
+                m1, m2, d12 = spherematch(r1, d1, r2, d2, length, maxmatch=maxmatch, **kw2)
+            except Exception as e:
+                from pydl.pydlutils import PydlutilsException
+                if isinstance(e, PydlutilsException) and not expected and "No matches" in str(e):
+                    return [], np.zeros(0)
+                raise
+            return list(zip(np.asarray(m1).tolist(), np.asarray(m2).tolist())), np.asarray(d12, dtype=float)
+        got, d12 = run(ra1, dec1, ra2, dec2, 0, **kw)
+        if len(got) != len(set(got)) or set(got) != set(expected):
+            miss, spur = sorted(set(expected) - set(got))[:3], sorted(set(got) - set(expected))[:3]
+            bad.append(("unlimited_match_returns_exactly_the_pairs_below_the_match_length_once",
+                        "missing %s spurious %s repeated %d" % ([(p, round(ra1[p[0]], 5), round(ra2[p[1]], 5)) for p in miss], spur, len(got) - len(set(got)))))
+        else:
+            if (np.diff(d12) < 0).any() or any(abs(dd - expected[p]) > 1e-6 * max(length, expected[p]) + 1e-9 for p, dd in zip(got, d12)):
+                bad.append(("separations_true_and_non_decreasing", "a reported separation differs from the true one or the order decreases"))
+        # greedy selection with maxmatch = k
+        k = c["k"]
+        gk, dk = run(ra1, dec1, ra2, dec2, k, **kw)
+        use1, use2, sel = {}, {}, []
+        for p in sorted(expected, key=lambda q: expected[q]):
+            if use1.get(p[0], 0) < k and use2.get(p[1], 0) < k:
+                sel.append(p)
+                use1[p[0]] = use1.get(p[0], 0) + 1
+                use2[p[1]] = use2.get(p[1], 0) + 1
+        if sorted(gk) != sorted(sel) or (np.diff(dk) < 0).any():
+            bad.append(("maxmatch_k_is_a_distance_ordered_greedy_selection", "maxmatch=%d: got %d pairs, the greedy selection has %d; first differences %s" %
+                        (k, len(gk), len(sel), sorted(set(gk) ^ set(sel))[:4])))
+        # other chunk size, permuted input order
+        p1, p2 = c["perm"]
+        alt = dict(chunksize=max(4 * length, 0.1) * 2.7)
+        g2, _ = run(ra1[p1], dec1[p1], ra2[p2], dec2[p2], 0, **alt)
+        g2 = {(p1[i], p2[j]) for i, j in g2}
+        if g2 != set(expected):
+            bad.append(("independent_of_chunk_size_and_point_order", "permuted input with chunksize %g: missing %s spurious %s" %
+                        (alt["chunksize"], sorted(set(expected) - g2)[:3], sorted(g2 - set(expected))[:3])))
+        return bad
